@@ -50,7 +50,7 @@ impl Runner<W> for RecRunner {
 pub fn run() {
     let ftags = ["", "@smoke"];
     let rtags = ["", "@smoke", "@x"];
-    let filters: [(&str, Option<&str>, Option<&str>); 10] = [
+    let filters: [(&str, Option<&str>, Option<&str>); 14] = [
         ("closure", None, None),
         ("name", Some("wip"), None),
         ("tags1", None, Some("@smoke")),
@@ -60,6 +60,10 @@ pub fn run() {
         ("tags5", None, Some("not (@smoke or @wip)")),
         ("tags6", None, Some("not @slow")),
         ("tags7", None, Some("@x and not @slow")),
+        ("tags8", None, Some("not (not @smoke)")),
+        ("tags9", None, Some("not (@smoke and not @wip)")),
+        ("tags10", None, Some("not (@wip or not @slow)")),
+        ("tags11", None, Some("not ((not (@smoke or @wip)) and (not @slow))")),
         ("name+tags", Some("plain"), Some("@wip")),
     ];
     let mut n = 0;
